@@ -137,8 +137,11 @@ def gen_op(rng, pool, weights=None):
         return [kind, cc, seed, use_registry, pinned], None
     if fam == "bic":
         b = pool["bics"]
-        r = rng.randrange(3)
-        text = _pick(rng, b["registry"] if r == 0 else b["valid"] if r == 1 else b["odd"])
+        r = rng.randrange(4)
+        if r == 3:
+            text = _pick(rng, b["by_country"][_pick(rng, pool["countries"])])
+        else:
+            text = _pick(rng, b["registry"] if r == 0 else b["valid"] if r == 1 else b["odd"])
         r = rng.randrange(4)
         if r == 0:
             return ["bic", text, {}], None
